@@ -78,7 +78,18 @@ def gen_files(scratch):
     rc, out = common.sh([sys.executable, "-W", "ignore", os.path.join(ROOT, "tools", "iface_table.py"), REPO, out_v, out_json])
     if rc:
         raise RuntimeError(out[-1500:])
-    return {"Gen_iface": open(out_v).read()}, json.load(open(out_json))
+    files = {"Gen_iface": open(out_v).read()}
+    data = json.load(open(out_json))
+    # the propagate() models the linked theorem (Props/C10_link.v) is about: regenerated from the source by
+    # C03's translator (identical text to what the C03 check installs)
+    try:
+        from harness.props import c03
+        files2, side = c03.gen_files(scratch)
+        files.update(files2)
+        data["prop_gen"] = "ok"
+    except Exception as e:
+        data["prop_gen"] = "failed: %s" % str(e)[-800:]
+    return files, data
 
 
 def py_accepts(sg, site):
@@ -822,8 +833,9 @@ def run(ctx):
         "the antennas object is a sequence whose len() equals the number of antennas it yields (C19 proves this for Detector)",
         "directions in the stub correspondence are axis-aligned unit vectors (normalize and arccos are then exact); the real "
         "component matrix covers general directions numerically",
-        "component contracts used by grid_is_times_plus_tof are hypotheses of the theorem (signal model answers on the given times; "
-        "propagate delays by tof); they are checked on the real components by the matrix run",
+        "grid_is_times_plus_tof keeps both component contracts as hypotheses; Props/C10_link.v discharges the propagate "
+        "contract for the shipped Basic/Specialized/Uniform/Layered propagate (generated from source, via C03/C05); the "
+        "signal-model contract (pulse on the times it was given) stays a hypothesis, checked on the shipped models by the matrix run",
         "exceptions other than ValueError raised by components propagate out of event() and are not modelled"]
     import logging
     logging.disable(logging.CRITICAL)
@@ -836,6 +848,11 @@ def run(ctx):
     except Exception as e:
         ctx.oblige("gen:iface", False, str(e)[-1500:])
     ok = ctx.coq_build("C10")
+    # propagate contract discharged for the shipped propagate() methods (on top of C03 / C05)
+    if data is not None:
+        ctx.oblige("gen:prop (C03 translator)", data.get("prop_gen") == "ok", data.get("prop_gen", ""))
+    ok_link = ctx.coq_build("C10_link")
+    ok = ok and ok_link
     if data:
         ctx.extra["interface_pairs"] = len(data["table"])
         ctx.extra["kernel_call_sites"] = data["sites"]
